@@ -1,9 +1,10 @@
 import TensorModel.Proofs.ShapeAlg
 import TensorModel.Proofs.CoreEq
 import TensorModel.Proofs.Inject
+import TensorModel.Proofs.Compact
 /-!
   C13 — shape algebra agrees with execution; reshape; metadata invariant.
-  Property theorems only; helper lemmas live in `TensorModel/Proofs/ShapeAlg.lean`.
+  Property theorems only; helper lemmas live in `TensorModel/Proofs/ShapeAlg.lean` and `Proofs/Compact.lean`.
 -/
 namespace TM.C13
 
@@ -46,15 +47,106 @@ theorem reshape_size_mismatch (st : St) (t : Dense) (dims : List Int)
     ∃ t', t.reshape st dims = .ok (.errKept t') ∧ t' = t := by
   exact ⟨t, ShapeAlg.reshape_mismatch st t dims h, rfl⟩
 
-/-- On a plain tensor (no pending transpose, window = size) a reshape of equal size succeeds, sets the
-    requested shape with the default strides of the tensor's own data order, and touches neither the
-    storage nor the window: the flat element sequence in the tensor's data order is preserved. -/
+/-- On a plain tensor (no pending transpose, its window holds exactly its elements under the default strides of its
+    data order) a reshape of equal size succeeds, sets the requested shape with the default strides of the tensor's own
+    data order, and touches neither the storage nor the window: the flat element sequence in the tensor's data order
+    is preserved. -/
 theorem reshape_plain (st : St) (t : Dense) (dims : List Int)
     (hsz : totalSize t.shape = totalSize dims) (hold : t.old = none) (hv : t.view = false)
-    (hlen : (t.win.len : Int) = totalSize dims) (hne : dims ≠ []) :
+    (hlen : (t.win.len : Int) = totalSize dims) (hst : t.ap.strides = Dense.defaultStrides t.ap.o.col t.shape)
+    (hne : dims ≠ []) :
     ∃ t', t.reshape st dims = .ok (.ok st t') ∧ t'.win = t.win ∧ t'.ap.shape = dims ∧
       t'.ap.strides = Dense.defaultStrides t.ap.o.col dims ∧ t'.ap.o = t.ap.o := by
-  exact ⟨_, ShapeAlg.reshape_plain' st t dims hsz hold hv hlen hne, rfl, rfl, rfl, rfl⟩
+  exact ⟨_, ShapeAlg.reshape_plain' st t dims hsz hold hv hlen hst hne, rfl, rfl, rfl, rfl⟩
+
+/-- **A tensor that owns its data without holding it in the default layout of its shape** (the clone of a
+    non-contiguous view keeps the view's window and strides; so does the `UT()` of a `SafeT()` of a lazily transposed
+    tensor) **is compacted by `Reshape`** (after the repair of findings F16 / F97, which installed the default strides
+    of the new shape over data that had not moved): whenever the call returns it has succeeded — no error, no
+    half-done state — the tensor has the requested shape with the default strides of its data order over a buffer of
+    its own of exactly `size` cells, flagged contiguous, and no cell that existed before is changed (the views taken
+    from the tensor before keep their elements). -/
+theorem reshape_compacts (st : St) (t : Dense) (dims : List Int)
+    (hsz : totalSize t.shape = totalSize dims) (hold : t.old = none) (hv : t.view = false)
+    (hnd : t.hasDefaultLayout = false) (hne : dims ≠ []) (hnn : 0 ≤ totalSize dims)
+    (res : Dense.ReshapeRes) (h : t.reshape st dims = .ok res) :
+    ∃ st' t', res = .ok st' t' ∧ t'.ap.shape = dims ∧ t'.ap.strides = Dense.defaultStrides t.ap.o.col dims ∧
+      t'.ap.o = { col := t.ap.o.col } ∧
+      t'.win = ⟨st.heap.size, 0, (totalSize dims).toNat, (totalSize dims).toNat⟩ ∧ t'.view = false ∧ t'.old = none ∧
+      t'.dt = t.dt ∧ st'.heap.size = st.heap.size + 1 ∧ (∀ b, b < st.heap.size → st'.heap[b]? = st.heap[b]?) :=
+  reshape_compacts' st t dims hsz hold hv hnd hne hnn res h
+
+/-- … **and the flat element sequence in the tensor's own data order is preserved**, row-major tensors: the call
+    succeeds, and cell `k` of the new buffer — the `k`-th element of the reshaped tensor in row-major order, whatever
+    the new shape — holds the element the tensor had at the coordinate of row-major rank `k`. Any rank, any strides
+    of the receiver (flagged non-contiguous, unmasked, its pattern inside its window). -/
+theorem reshape_keeps_sequence_rowMajor (st : St) (t : Dense) (dims : List Int)
+    (hsz : totalSize t.shape = totalSize dims) (hold : t.old = none) (hv : t.view = false)
+    (hnd : t.hasDefaultLayout = false) (hne : dims ≠ []) (hne' : t.ap.shape ≠ []) (hrow : t.ap.o.col = false)
+    (hit : t.requiresIterator = true) (hnm : t.mask = none) (hlen0 : t.win.len ≠ 0)
+    (hl : t.ap.strides.length = t.ap.shape.length) (hp : ∀ d ∈ t.ap.shape, 0 < d)
+    (hcap : t.win.len ≤ t.win.cap) (hbuf : t.win.buf < st.heap.size)
+    (hr : ∀ c ∈ allCoords t.ap.shape, 0 ≤ dot c t.ap.strides ∧ dot c t.ap.strides < (t.win.len : Int))
+    (hs : Has st t.win.buf t.win.off t.win.len) :
+    ∃ st' t', t.reshape st dims = .ok (.ok st' t') ∧ t'.ap.shape = dims ∧ t'.ap.strides = calcStrides dims ∧
+      t'.win = ⟨st.heap.size, 0, (totalSize dims).toNat, (totalSize dims).toNat⟩ ∧ t'.mask = none ∧
+      (∀ x ∈ allCoords t.ap.shape,
+        cell st' st.heap.size (rowRank t.ap.shape x).toNat =
+          some (cellD st t.win.buf (t.win.off + (dot x t.ap.strides).toNat))) ∧
+      (∀ b k, b < st.heap.size → cell st' b k = cell st b k) := by
+  obtain ⟨w1, w2, w3⟩ := rowDefault_wf t.ap.shape hp
+  have e : ∀ sh, Dense.defaultStrides t.ap.o.col sh = calcStrides sh := by
+    intro sh; simp [Dense.defaultStrides, hrow]
+  have := reshape_keeps_sequence' st t dims hsz hold hv hnd hne hne' hit hnm hlen0 hl hp hcap hbuf hr hs
+    (by rw [e]; exact w1) (by rw [e]; exact w2) (by rw [e]; exact w3)
+  simp only [e] at this
+  exact this
+
+/-- … column-major tensors (shapes with one stride per axis: neither scalar-equivalent nor a vector): cell `k` of
+    the new buffer holds the element the tensor had at the coordinate of column-major rank `k`. -/
+theorem reshape_keeps_sequence_colMajor (st : St) (t : Dense) (dims : List Int)
+    (hsz : totalSize t.shape = totalSize dims) (hold : t.old = none) (hv : t.view = false)
+    (hnd : t.hasDefaultLayout = false) (hne : dims ≠ []) (hne' : t.ap.shape ≠ []) (hcol : t.ap.o.col = true)
+    (hse : isScalarEquiv t.ap.shape = false) (hvec : isVector t.ap.shape = false)
+    (hit : t.requiresIterator = true) (hnm : t.mask = none) (hlen0 : t.win.len ≠ 0)
+    (hl : t.ap.strides.length = t.ap.shape.length) (hp : ∀ d ∈ t.ap.shape, 0 < d)
+    (hcap : t.win.len ≤ t.win.cap) (hbuf : t.win.buf < st.heap.size)
+    (hr : ∀ c ∈ allCoords t.ap.shape, 0 ≤ dot c t.ap.strides ∧ dot c t.ap.strides < (t.win.len : Int))
+    (hs : Has st t.win.buf t.win.off t.win.len) :
+    ∃ st' t', t.reshape st dims = .ok (.ok st' t') ∧ t'.ap.shape = dims ∧ t'.ap.strides = calcStridesCol dims ∧
+      t'.win = ⟨st.heap.size, 0, (totalSize dims).toNat, (totalSize dims).toNat⟩ ∧ t'.mask = none ∧
+      (∀ x ∈ allCoords t.ap.shape,
+        cell st' st.heap.size (colRank t.ap.shape x).toNat =
+          some (cellD st t.win.buf (t.win.off + (dot x t.ap.strides).toNat))) ∧
+      (∀ b k, b < st.heap.size → cell st' b k = cell st b k) := by
+  obtain ⟨w0, w1, w2, w3⟩ := colDefault_wf t.ap.shape hp hse hvec
+  have e : ∀ sh, Dense.defaultStrides t.ap.o.col sh = calcStridesCol sh := by
+    intro sh; simp [Dense.defaultStrides, hcol]
+  have := reshape_keeps_sequence' st t dims hsz hold hv hnd hne hne' hit hnm hlen0 hl hp hcap hbuf hr hs
+    (by rw [e]; exact w1) (by rw [e]; exact w2) (by rw [e]; exact w3)
+  simp only [e, w0] at this
+  exact this
+
+/-- non-vacuity (the witness of finding F16): the clone of the first two columns of a 3×3 matrix — window of eight
+    cells, strides (3, 1), flagged non-contiguous, not a view — meets the hypotheses; reshaped to (6) it gets a
+    buffer of six cells holding its elements in order (before the repair: error, strides overwritten) -/
+def rsSt : St := { heap := #[#[.src 0 0, .src 0 1, .src 0 2, .src 0 3, .src 0 4, .src 0 5, .src 0 6, .src 0 7]] }
+def rsClone : Dense := { ap := { shape := [3, 2], strides := [3, 1], fin := true, o := { nonContig := true } },
+                         win := ⟨0, 0, 8, 8⟩, dt := "i16" }
+example : rsClone.hasDefaultLayout = false ∧ rsClone.requiresIterator = true ∧ rsClone.view = false ∧
+    (match rsClone.reshape rsSt [6] with
+     | .ok (.ok s r) => r.ap.shape == [6] && r.ap.strides == [1] && r.win == ⟨1, 0, 6, 6⟩ && !r.ap.o.nonContig &&
+         (s.heap[1]? == some #[.src 0 0, .src 0 1, .src 0 3, .src 0 4, .src 0 6, .src 0 7]) && (s.heap[0]? == rsSt.heap[0]?)
+     | _ => false) = true := by decide
+/-- … and (the shape of finding F97) a tensor of the right length whose strides are not the default ones: the
+    elements come out in their logical order, not in storage order -/
+def rsPerm : Dense := { ap := { shape := [2, 3], strides := [1, 2], fin := true, o := { nonContig := true } },
+                        win := ⟨0, 0, 6, 6⟩, dt := "i16" }
+example : rsPerm.hasDefaultLayout = false ∧
+    (match rsPerm.reshape rsSt [3, 2] with
+     | .ok (.ok s r) => r.ap.strides == [2, 1] &&
+         (s.heap[1]? == some #[.src 0 0, .src 0 2, .src 0 4, .src 0 1, .src 0 3, .src 0 5])
+     | _ => false) = true := by decide
 
 /-- A "covering" access pattern: one non-negative stride per axis, positive dimensions, and the
     largest address lies inside a window of `len` cells. (All in-box addresses are then in-window.) -/
